@@ -43,6 +43,8 @@ Verdict(c) ==
       c18 |-> C18_Normal(c.out),
       c18_clauses |-> BadGapClauses(c.out),
       c18_at |-> FirstBadGap(c.out),
+      c18_indent |-> C18_IndentOK(c.lines),
+      c18_line |-> IF C18_IndentOK(c.lines) THEN [kind |-> "-", ind |-> 0, open_ind |-> 0] ELSE c.lines[FirstBadLine(c.lines)],
       c06_pre |-> LineLevelComments(c.inp),
       c06 |-> c.o1 = c.o2,
       c02 |-> c.t0 = c.o1 /\ c.inp = c.out ]        \* canonical mode: the transducer is the identity
